@@ -80,6 +80,9 @@ func Load(dir string, overlay map[string][]byte) (*Program, error) {
 			"sort":          true,
 			"math/bits":     true,
 			"strconv":       true,
+			"bytes":         true, // (functions without an intrinsic; assembly-backed ones stay unsupported)
+			"unicode":       true,
+			"unicode/utf8":  true,
 		},
 	}
 	registerIntrinsics(p)
